@@ -28,10 +28,11 @@ type Ev struct {
 }
 
 type driver struct {
-	b    *sonic.BipBuffer
-	size int
-	tok  byte
-	last []byte // last claimed slice
+	b        *sonic.BipBuffer
+	size     int
+	tok      byte
+	last     []byte // last claimed slice
+	panicked bool
 }
 
 func (d *driver) geom(s []byte) (off, ln int) {
@@ -60,6 +61,13 @@ func (d *driver) sample(e *Ev) {
 
 func (d *driver) step(g Ev) (e Ev) {
 	e = Ev{C: "bip", Ev: g.Ev, N: g.N, Off: -1, Toks: []int{}}
+	defer func() {
+		// a call with legal (non-negative) arguments that panics is recorded; the monitor rejects it
+		if r := recover(); r != nil {
+			e = Ev{C: "bip", Ev: "Panic", N: g.N, Off: -1, Toks: []int{}}
+			d.panicked = true
+		}
+	}()
 	switch g.Ev {
 	case "New":
 		d.b = sonic.NewBipBuffer(g.N)
@@ -123,6 +131,12 @@ func Run(in, out string) error {
 		sum.Scenarios++
 		wrapped := false
 		for i, g := range steps {
+			if d.panicked && g.Ev != "New" {
+				break // the rest of a history whose buffer panicked is not replayed
+			}
+			if g.Ev == "New" {
+				d.panicked = false
+			}
 			e := d.step(g)
 			e.Sid, e.I = idx, i+1
 			w.Emit(e)
